@@ -1046,11 +1046,17 @@ func (s *Session) inputData(seg *segment) error {
 	// at once can put a full congestion window of data segments in front of the
 	// open session response, and a UDP client, which acknowledges nothing until
 	// it has seen that response, never lets the window move again.
-	quotaExhausted := false
 	if !s.isClient && seg.metadata.Protocol() == openSessionRequest && s.isState(sessionAttached) {
-		var err error
-		if quotaExhausted, err = s.queueOpenSessionResponse(); err != nil {
+		quotaExhausted, err := s.queueOpenSessionResponse()
+		if err != nil {
 			return err
+		}
+		if quotaExhausted {
+			// Refuse the session before its request becomes readable, so that
+			// the application has nothing to answer and nothing is relayed.
+			log.Debugf("Closing %v because user %s used all the quota", s, s.UserName())
+			s.Close()
+			return nil
 		}
 	}
 
@@ -1111,10 +1117,6 @@ func (s *Session) inputData(seg *segment) error {
 		return fmt.Errorf("unsupported transport protocol %v", s.transportProtocol)
 	}
 
-	if quotaExhausted {
-		log.Debugf("Closing %v because user %s used all the quota", s, s.UserName())
-		s.Close()
-	}
 	return nil
 }
 
